@@ -4,6 +4,7 @@ import KyupyVerif.Model.SimOps
 import KyupyVerif.Proofs.Solve
 import KyupyVerif.Proofs.GenOpsWO
 import KyupyVerif.Proofs.StripLinkMem
+import KyupyVerif.Proofs.MemMapAccept
 import KyupyVerif.Gen.Tables
 /-! # C01 — 2-valued logic simulation computes the netlist's Boolean function
 
@@ -11,6 +12,7 @@ Generated from the working tree: `Gen.sem2n` (what `logic_sim._prop_cpu` compute
 `Gen.sem2p` (`LogicSim.c_prop()` at m=2), `Gen.sem2c` (the `inject_cb` chain), `Gen.prims`
 (`sim.names`), `Gen.kindPrefixes` (`sim.kind_prefixes`, in dictionary order).
 Hand model tied by exact correspondence: `genOps`, `levelise`, `memMap` (Model/SimOps.lean).
+Memory level for ALL circuits: `logic_sim_end_to_end_all_circuits` (the map certificate is the theorem `C08.simops_map_accepted`).
 Specification: `formula`, `specPrimName`, `evalLine` (Model/Prim.lean, Model/Net.lean). -/
 namespace KV.C01
 open KV KV.Sig
@@ -159,6 +161,34 @@ def demoMap : MapIn :=
     caps := #[1, 1, 1, 1, 1, 1, 1, 1, 1, 1, 1, 0, 0, 0, 1], cLen := 9, capsMin := 1 }
 example : demoMap.ops = genOps Gen.kindPrefixes demoMap.net [0, 2, 1, 3, 4, 5, 6] false ∧ demoMap.check = none ∧
     demoMap.ppoSrcs = [(14, 5)] := by decide +kernel
+
+/-- (4e) **end to end on memory, ALL circuits, no per-instance certificate**: `logic_sim_end_to_end` for the tables the
+    `SimOps` model builds (`simopsMap`: `genOps`, `levelise`, `memMap` with the first-fit allocator, any capacity vector,
+    with or without `c_reuse`; equal to the real tables by exact correspondence) — the hypothesis "the map certificate
+    accepts" is discharged by `C08.simops_map_accepted` (`simopsMap_accepted`). Remaining hypotheses are the domain
+    predicates `Net.wfB`, `orderOKB`, `readsDrivenB` (every read or captured line is written by a row: known cell kinds),
+    evaluated by the driver on the real circuit and order. -/
+theorem logic_sim_end_to_end_all_circuits {α} [Inhabited α] (tbl : List PrefixRow) (net : Net) (order : List Nat)
+    (capsIn : Nat → Nat) (capsMin : Nat) (reuse : Bool)
+    (hwf : net.wfB = true) (ho : orderOKB net order = true) (hr : readsDrivenB tbl net order = true) (hpos : 0 < capsMin)
+    (f : Nat → List α → α) (m0 : Int → α) (env0 : Nat → α)
+    (h0 : ∀ x ∈ (simopsMap tbl net order false capsIn capsMin reuse).tracked,
+      (∀ o ∈ (simopsMap tbl net order false capsIn capsMin reuse).ops, o.out ≠ x) →
+        m0 ((simopsMap tbl net order false capsIn capsMin reuse).loc x) = env0 x)
+    (val : Nat → α)
+    (hval : SolvesJ (Jt net) (fun op => f op.code) ((genOps tbl net order false).map OpRow.toOp) env0 val) :
+    let p := simopsMap tbl net order false capsIn capsMin reuse
+    ∀ j s, (j, s) ∈ p.ppoSrcs →
+      MapSound.memRun p (MapSound.rowRW α) (fun o => f o.lut) p.ops m0 (p.loc j) = val s :=
+  logic_sim_end_to_end tbl (simopsMap tbl net order false capsIn capsMin reuse) order hwf ho rfl rfl
+    (simopsMap_accepted tbl net order false capsIn capsMin reuse hwf ho (fun h => Bool.noConfusion h) hr hpos) hpos
+    f m0 env0 h0 val hval
+
+/-- non-vacuity of (4e): `demoNet` satisfies the hypotheses and the model's tables are the real tables `demoMap` -/
+example : readsDrivenB Gen.kindPrefixes demoNet [0, 2, 1, 3, 4, 5, 6] = true ∧
+    (simopsMap Gen.kindPrefixes demoNet [0, 2, 1, 3, 4, 5, 6] false (fun _ => 1) 1 true).locs = demoMap.locs ∧
+    (simopsMap Gen.kindPrefixes demoNet [0, 2, 1, 3, 4, 5, 6] false (fun _ => 1) 1 true).cLen = demoMap.cLen := by
+  decide +kernel
 
 /-- (5) lane-wise for every lane count: lane `k` of the bit-parallel result is the per-lane function -/
 theorem lanewise2 (w k : Nat) (hk : k < w) (code : Nat) (a b c d : BitVec w) :
